@@ -87,6 +87,9 @@ class MaxRateClassifier(Module):
 
         self.register_load_state_dict_post_hook(sdhook)
 
+        # derived buffers start consistent with the initial rates
+        self.rates = self.rates
+
     @property
     def assignments(self) -> torch.Tensor:
         r"""Class assignments per-neuron.
